@@ -48,12 +48,12 @@ SQLArgs = Sequence[Any] | Mapping[str, Any]
 
 
 #
-# LIKE pattern helpers
+# Prefix pattern helpers
 #
 
 
 def prefix_clause(column: str, prefix: str) -> tuple[str, str]:
-    """Build a LIKE predicate and its argument for matching a column against a prefix.
+    """Build a case-sensitive prefix predicate and its argument for matching a column.
 
     Parameters
     ----------
@@ -62,7 +62,7 @@ def prefix_clause(column: str, prefix: str) -> tuple[str, str]:
         This must be a literal from the calling code, never user input.
     prefix
         The literal prefix to match.
-        Characters with a special meaning in LIKE patterns are escaped.
+        Characters with a special meaning in GLOB patterns are escaped.
 
     Returns
     -------
@@ -73,11 +73,14 @@ def prefix_clause(column: str, prefix: str) -> tuple[str, str]:
 
     Notes
     -----
-    SQLite only honors the escape character when the query carries an `ESCAPE` clause,
-    so the predicate and its argument are built together and must be used together.
+    `GLOB` is used instead of `LIKE`, because `LIKE` ignores the case of ASCII letters,
+    while paths that differ in case are different paths.
+    `GLOB` has no escape character: a special character is matched literally
+    by putting it in a character class of its own.
+    The predicate and its argument are built together and must be used together.
     """
-    escaped = prefix.replace("\\", "\\\\").replace("%", "\\%").replace("_", "\\_")
-    return f"{column} LIKE ? ESCAPE '\\'", f"{escaped}%"
+    escaped = "".join(f"[{char}]" if char in "*?[" else char for char in prefix)
+    return f"{column} GLOB ?", f"{escaped}*"
 
 
 #
